@@ -231,6 +231,11 @@ func UnmarshalDigitallySigned(r io.Reader) (*DigitallySigned, error) {
 
 func marshalDigitallySignedHere(ds DigitallySigned, here []byte) ([]byte, error) {
 	sigLen := len(ds.Signature)
+	if sigLen > 0xffff {
+		// the signature is an opaque<0..2^16-1> vector: a longer one cannot be
+		// represented, and truncating its length would produce a corrupt encoding
+		return nil, errors.New("signature too large")
+	}
 	dsOutLen := 2 + SignatureLengthBytes + sigLen
 	if here == nil {
 		here = make([]byte, dsOutLen)
